@@ -61,14 +61,17 @@ read-only descriptors. -/
 def DryCall : Call → Prop
   | .fopen _ | .fclose _ | .opendir _ | .readdir _ | .closedir _ | .openRd .. | .read _ | .close _ => True
   -- the calls of evaluation (`command`, `isdirectory`, file-time `date` conditions: `EvalCall`)
-  | .openPath _ | .fork | .waitpid | .stat _ => True
+  | .openPath _ | .fork .. | .waitpid | .stat _ => True
   | _ => False
 
 theorem DryCall.quiet {c : Call} (h : DryCall c) : c.mutating = false := by
   cases c <;> first | exact h.elim | rfl
 
 theorem DryCall.of_evalCall {c : Call} (h : EvalCall c) : DryCall c := by
-  rcases h with h | h | h | ⟨x, h⟩ | ⟨x, h⟩ <;> subst h <;> exact True.intro
+  rcases h with h | h | h | ⟨x, h⟩ | ⟨x, h⟩
+  · subst h; exact True.intro
+  · obtain ⟨_, _, rfl⟩ := Call.isFork_iff.1 h; exact True.intro
+  all_goals subst h; exact True.intro
 
 theorem dry_calls_evalP (env : Env) (e : Expr) (m : Msg) (fl : MFlags) : Calls DryCall (evalP env e m fl) :=
   calls_mono' (evalP_calls_of env e m fl) fun _ hc => DryCall.of_evalCall hc.evalCall
